@@ -3,6 +3,7 @@ import ScVerif.C07.Flat
 import ScVerif.C07.Rim
 import ScVerif.C07.EventVals
 import ScVerif.C07.Rim3
+import ScVerif.C07.Rim4
 /-!
 Driver handler for C07 (stateful).  One op per line; the answer lists every message that crossed
 the boundary in this op by its contents; `audit` prints the current contents of every published
@@ -158,6 +159,8 @@ def handleCore (s : CoreState) (toks : List String) : CoreState × String :=
 
 def handle (s : DrvState) (toks : List String) : DrvState × String :=
   match toks with
+  | "rim" :: "hail" :: rest => (s, Rim4.handleHail rest)
+  | "rim" :: "incl" :: rest => (s, Rim4.handleIncl rest)
   | "rim" :: "mode" :: rest => (s, Rim3.handleMode rest)
   | "rim" :: "positions" :: rest => (s, Rim3.handlePositions rest)
   | "rim" :: "plant" :: rest => (s, Rim3.handlePlant rest false)
